@@ -232,10 +232,10 @@ Proof.
   replace (tag + 192 - 192) with tag by lia.
   rewrite <- app_assoc. cbn [body_chunks].
   rewrite (pktlen_roundtrip (len body) (body ++ rest) 0 Hl).
-  unfold len. rewrite Nat2N.id.
-  replace (length (pktlen_encode (N.of_nat (length body)) ++ body ++ rest) <?
-           length (pktlen_encode (N.of_nat (length body))) + length body)%nat with false
-    by (rewrite !app_length; lia).
+  set (hd := pktlen_encode (len body)).
+  replace (len (hd ++ body ++ rest) <? N.of_nat (length hd) + len body) with false
+    by (unfold len; rewrite !app_length; lia).
+  unfold len at 1. rewrite Nat2N.id.
   rewrite (substr_app_exact _ _ body rest eq_refl).
   rewrite firstn_app, firstn_all, Nat.sub_diag. cbn [firstn]. now rewrite app_nil_r.
 Qed.
@@ -245,13 +245,18 @@ Lemma be_bytes_length k n : length (be_bytes k n) = k.
 Proof. revert n. induction k; intro n; cbn [be_bytes]; [reflexivity|]. rewrite app_length, IHk. cbn. lia. Qed.
 
 Lemma be_value_snoc l x : be_value (l ++ [x]) = be_value l * 256 + x.
-Proof. unfold be_value. now rewrite fold_left_app. Qed.
+Proof. unfold be_value. rewrite fold_left_app. cbn [fold_left]. now rewrite N.shiftl_mul_pow2. Qed.
+
+Lemma shiftr8 n : N.shiftr n 8 = n / 256.
+Proof. now rewrite N.shiftr_div_pow2. Qed.
+Lemma land255 n : N.land n 255 = n mod 256.
+Proof. replace 255 with (N.ones 8) by reflexivity. now rewrite N.land_ones. Qed.
 
 Lemma be_value_bytes k n : be_value (be_bytes k n) = n mod 256 ^ N.of_nat k.
 Proof.
   revert n. induction k as [|k IH]; intro n.
   - cbn. now rewrite N.mod_1_r.
-  - cbn [be_bytes]. rewrite be_value_snoc, IH.
+  - cbn [be_bytes]. rewrite be_value_snoc, IH, shiftr8, land255.
     rewrite Nat2N.inj_succ, N.pow_succ_r'.
     rewrite N.mod_mul_r by (try apply N.pow_nonzero; lia).
     generalize ((n / 256) mod 256 ^ N.of_nat k). generalize (n mod 256). intros; ring.
@@ -260,7 +265,7 @@ Qed.
 Lemma be_bytes_octets k n : octets (be_bytes k n).
 Proof.
   revert n. induction k; intro n; cbn [be_bytes]; [constructor|].
-  apply Forall_app. split; [apply IHk|]. repeat constructor. unfold octet. lia.
+  apply Forall_app. split; [apply IHk|]. repeat constructor. unfold octet. rewrite land255. lia.
 Qed.
 
 Lemma size_bound n : n < 256 ^ N.of_nat (mpi_octets n).
@@ -395,7 +400,7 @@ Lemma crc24_octets_ok l : octets (crc24_octets l) /\ be_value (crc24_octets l) =
 Proof.
   pose proof (crc24_lt l). unfold crc24_octets, be3, octets, octet, be_value. cbn [fold_left]. split.
   - repeat constructor; lia.
-  - lia.
+  - rewrite !N.shiftl_mul_pow2. change (2 ^ 8) with 256. lia.
 Qed.
 
 (* RFC 4880 6.1 reference values: the CRC of the empty text is the initial value, and the parameters are the
